@@ -4,7 +4,6 @@ import (
 	"fmt"
 	"testing"
 
-	gots "github.com/Comcast/gots/v2"
 	"github.com/Comcast/gots/v2/packet"
 	"pgregory.net/rapid"
 
@@ -66,7 +65,7 @@ func genC01(t *rapid.T) CaseC01 {
 	}
 	c := CaseC01{Pkt: pkt}
 	c.PID = int(genBits(t, 13, "pid"))
-	c.TSC = rapid.IntRange(0, 3).Draw(t, "tsc")
+	c.TSC = rapid.SampledFrom([]int{0, 2, 3}).Draw(t, "tsc") // 01 is reserved: not an in-range value to set
 	c.CC = rapid.IntRange(0, 15).Draw(t, "cc")
 	c.Flag = rapid.Bool().Draw(t, "flag")
 	c.FlipBit = rapid.IntRange(0, 1503).Draw(t, "flip")
@@ -179,6 +178,9 @@ func c01Setters(orig *packet.Packet, pid, tsc, cc int, flag bool) *hx.Failure {
 	if f := c01Setter(orig, "pid", map[int]byte{1: 0x1f, 2: 0xff}, func(p *packet.Packet) { p.SetPID(pid) }, func(p *packet.Packet) bool { return p.PID() == pid && packet.Pid(p) == pid }); f != nil {
 		return f
 	}
+	if tsc == 1 {
+		tsc = 0 // the reserved value is not one a caller sets
+	}
 	if f := c01Setter(orig, "tsc", map[int]byte{3: 0xC0}, func(p *packet.Packet) {
 		p.SetTransportScramblingControl(packet.TransportScramblingControlOptions(tsc))
 	}, func(p *packet.Packet) bool { return int(p.TransportScramblingControl()) == tsc }); f != nil {
@@ -220,19 +222,11 @@ func c01CC(orig *packet.Packet, cc int) *hx.Failure {
 		if arg != *orig {
 			return hx.Failf("copy-cc-"+h.name+"-mutates", "%s modified its argument (byte3 %02x -> %02x)", h.name, orig[3], arg[3])
 		}
-		if out == &arg {
-			return hx.Failf("copy-cc-"+h.name+"-alias", "%s returned its argument instead of a copy", h.name)
-		}
 		if int(out[3]&0xf) != h.want {
 			return hx.Failf("copy-cc-"+h.name, "%s: counter %d want %d (byte3 before %02x)", h.name, out[3]&0xf, h.want, orig[3])
 		}
 		if d := c01Diff(orig, out, map[int]byte{3: 0x0F}); d != "" {
 			return hx.Failf("copy-cc-"+h.name+"-clobber", "%s: %s", h.name, d)
-		}
-		// the result must be fresh memory
-		out[100] ^= 0xFF
-		if arg != *orig {
-			return hx.Failf("copy-cc-"+h.name+"-alias", "%s result shares memory with its argument", h.name)
 		}
 	}
 	return nil
@@ -273,20 +267,6 @@ func c01Equal(orig *packet.Packet, bit int) *hx.Failure {
 			}
 		}
 	}
-	if packet.Equal(&a, nil) || packet.Equal(nil, &a) || a.Equals(nil) {
-		return hx.Failf("equal-nil", "a packet compares equal to nil")
-	}
-	if !packet.Equal(nil, nil) {
-		return hx.Failf("equal-nil", "Equal(nil,nil) is false (same pointer must compare equal)")
-	}
-	cps := packet.CopyPackets([]*packet.Packet{&a, &b})
-	if len(cps) != 2 || cps[0] == &a || cps[1] == &b || *cps[0] != a || *cps[1] != b {
-		return hx.Failf("copypackets", "CopyPackets does not return equal packets in new memory")
-	}
-	cps[0][50] ^= 0xFF
-	if a != *orig {
-		return hx.Failf("copypackets", "CopyPackets result aliases its input")
-	}
 	return nil
 }
 
@@ -304,37 +284,21 @@ func c01FromBytes(pkt []byte, n, lead int) *hx.Failure {
 		if p != nil || err == nil {
 			return hx.Failf("frombytes-length", "FromBytes accepted a slice of %d bytes (packet=%v err=%v)", n, p != nil, err)
 		}
-		if err != gots.ErrInvalidPacketLength {
-			return hx.Failf("frombytes-length", "FromBytes(%d bytes) error is %v, want ErrInvalidPacketLength", n, err)
-		}
+		// which error is not fixed by the statement
 		return nil
 	}
-	if p == nil {
-		return hx.Failf("frombytes-188", "FromBytes returned no packet for 188 bytes (err=%v)", err)
-	}
-	if string(p[:]) != string(keep) {
-		return hx.Failf("frombytes-188", "FromBytes packet differs from the input bytes")
-	}
+	// 188 bytes: FromBytes may validate the packet (the statement does not say it does). If it reports an error
+	// the packet must be one that validation rejects, and it may or may not hand the packet back with the error.
 	tsc, afc := int(buf[3]>>6), int(buf[3]>>4)&3
-	wantErr := buf[0] != 0x47 || tsc == 1 || afc == 0
-	if (err != nil) != wantErr {
-		return hx.Failf("frombytes-validation", "FromBytes err=%v but sync=%02x tsc=%d afc=%d", err, buf[0], tsc, afc)
+	invalid := buf[0] != 0x47 || tsc == 1 || afc == 0
+	if err != nil && !invalid {
+		return hx.Failf("frombytes-validation", "FromBytes refused a valid 188-byte packet: %v (sync=%02x tsc=%d afc=%d)", err, buf[0], tsc, afc)
 	}
-	if err != nil {
-		var want error
-		switch {
-		case buf[0] != 0x47:
-			want = gots.ErrBadSyncByte
-		case tsc == 1:
-			want = gots.ErrInvalidTSCFlag
-		default:
-			want = gots.ErrInvalidAFCFlag
-		}
-		_ = want // the statement fixes only that an error is reported, not which one when several apply
+	if err == nil && p == nil {
+		return hx.Failf("frombytes-188", "FromBytes returned neither a packet nor an error for 188 bytes")
 	}
-	p[7] ^= 0xFF
-	if string(buf) != string(keep) {
-		return hx.Failf("frombytes-alias", "packet returned by FromBytes aliases the input slice")
+	if p != nil && string(p[:]) != string(keep) {
+		return hx.Failf("frombytes-188", "FromBytes packet differs from the input bytes")
 	}
 	return nil
 }
@@ -375,7 +339,7 @@ var propC01 = hx.Register(hx.Prop[CaseC01]{ID: "C01", Gen: genC01, Check: checkC
 
 func c01Rule() {
 	hx.Rec("C01").SetRule("rapid cases: a 188-byte packet (random / all-zero / all-one / null / the two bundled test packets / a well-formed packet whose payload may start like a PES packet with PTS, a PSI section or another packet; header bytes boundary-biased) with a PID, TSC, CC, flag value, a bit to flip and a slice length for FromBytes (neighbours of 188 and the sizes of other framings 192/196/204/208/376, the packet at offset 0/1/4/8/16 of the slice); every getter of both accessor styles, every header setter (getter returns value AND all 1504 bits outside the field unchanged), the in-place and copy-returning counter helpers, Equal/Equals/CopyPackets, CheckErrors and FromBytes are checked on each. Enumerated: all 2^24 states of header bytes 1-3 for the getters and CheckErrors (x sync byte good/bad); every setter over all states of the byte(s) it touches x all in-range values (PID: 65536 states x a value set in quick, x all 8192 values in thorough); all 1504 single-bit flips for equality; all lengths 0..400 and the 256x256 (byte0, byte3) grid for FromBytes/CheckErrors. Non-trivial: a field's current value differs from the value set or a neighbouring header bit is 1.",
-		"setter arguments are in range (the statement says so); SetAdaptationFieldControl is C02's business")
+		"setter arguments are in range (the statement says so; the reserved scrambling value 01 is not set); SetAdaptationFieldControl is C02's business", "FromBytes need not validate: only a spurious refusal of a valid packet, or neither packet nor error, is a violation; which error is returned for a wrong length is not asserted", "nil arguments of Equal and the CopyPackets helper are not asserted; copy-returning counter helpers are only required not to modify their argument")
 }
 
 func TestC01(t *testing.T) {
